@@ -29,14 +29,14 @@ inline void emit(const char* type, const char* form, const char* from, const cha
 
 // distinct components per slot, both signs; non-trivial mantissas
 template <class T> inline void fill(std::mt19937_64& g, T* c, int n, int variant) {
-  for (int i = 0; i < n; i++) { if (variant == 0) c[i] = (T)((i + 1) * ((i & 1) ? -1 : 1)); else { T m = (T)(1.0L + (long double)(g() >> 11) / (long double)(1ULL << 53)); c[i] = std::ldexp(m, (int)(g() % 16) - 8) * ((g() & 1) ? 1 : -1); } } }
+  for (int i = 0; i < n; i++) { if (variant == 2) c[i] = (i & 1) ? -(T)0 : (T)0; else if (variant == 0) c[i] = (T)((i + 1) * ((i & 1) ? -1 : 1)); else { T m = (T)(1.0L + (long double)(g() >> 11) / (long double)(1ULL << 53)); c[i] = std::ldexp(m, (int)(g() % 16) - 8) * ((g() & 1) ? 1 : -1); } } }
 
 // ---- free functions, run-time unit pair ----
 template <class U, class T> void runtime_forms(const char* Ty, const char* an, const char* bn, U a, U b, uint64_t seed, int reps) {
   std::mt19937_64 g(seed); const char* nm = NumName<T>::c;
   Acc sc_ip, arr, arr_ip, vec, vec_ip, pv, pv_ip, v3, v3_ip, sd, sd_ip, dy, dy_ip, v0;
   for (int r = 0; r < reps; r++) {
-    T c[9]; fill(g, c, 9, r == 0 ? 0 : 1); T want[9]; for (int i = 0; i < 9; i++) want[i] = PhQ::Convert(c[i], a, b);
+    T c[9]; fill(g, c, 9, r == 0 ? 0 : (r == 1 ? 2 : 1)); T want[9]; for (int i = 0; i < 9; i++) want[i] = PhQ::Convert(c[i], a, b);
     { T x = c[0]; PhQ::ConvertInPlace(x, a, b); sc_ip.cmp(x, want[0]); }
     { std::array<T, 5> in{c[0], c[1], c[2], c[3], c[4]}, keep = in; auto out = PhQ::Convert(in, a, b); for (int i = 0; i < 5; i++) arr.cmp(out[i], want[i]); for (int i = 0; i < 5; i++) if (!bat::biteq(in[i], keep[i])) arr.arg_modified++;
       PhQ::ConvertInPlace(in, a, b); for (int i = 0; i < 5; i++) arr_ip.cmp(in[i], want[i]); }
@@ -102,7 +102,8 @@ template <class Ad, class U, U u> void accessors(const char* Qn, const char* un,
   Acc ctor, val, sval, create, create_arr, create_cmp, prt, jsn, xml, yml, rb; const char* nm = NumName<T>::c;
   std::string abbr(PhQ::Abbreviation(u));
   for (int r = 0; r < reps; r++) {
-    T c[9]; fill(g, c, N, r == 0 ? 0 : 1);
+    T c[9]; fill(g, c, N, r == 0 ? 0 : (r == 1 ? 2 : 1));
+    if (r == 1) { for (int i = 0; i < N; i++) c[i] = PhQ::Convert((T)0, PhQ::Standard<U>, u); }   // the value whose SI image is exactly zero
     // construct from a value expressed in unit u: stored value = scalar conversion of each component, once
     using V = std::decay_t<decltype(std::declval<const Q&>().Value())>;
     V raw = bat::rawmake(c, (V*)nullptr); Q q(raw, u); T st[9]; getc(q, st);
